@@ -720,7 +720,7 @@ def _li_grids(ctx):
             j = rs.randint(0, n - 1)
             y[j + 1] = y[j]  # a zero-slope segment
         if y[-1] == 0 and y[-2] == 0:
-            y[-1] = 1.0      # trailing zero-area segments are the subject of a separate obligation
+            y[-1] = 1.0      # no trailing zero-area segment (u = 1 with a zero-height last node is a separate obligation)
         if np.sum(0.5 * (y[1:] + y[:-1]) * np.diff(x)) < 0.1:
             y[0] += 1.0
         grids.append(("seeded%d" % i, x.tolist(), y.tolist()))
@@ -747,8 +747,8 @@ def _u_values(rs, n=400):
         "generator.breit_wigner:BWGenerator.solve", "generator.breit_wigner:BWGenerator.__call__", "generator.breit_wigner:BWGenerator.generate"],
        env="shim", kind="B",
        bound="LinearInterp: 7 fixed + 12 (quick) / 200 (thorough) seeded monotone grids of 2..8 nodes, node values in {0, 0.5, .., 5} (zero-height nodes, zero-slope and "
-             "zero-area segments inside and at the start), 410 values of u in [0,1) incl. 0, 1e-15, 1-1e-15 and the exact segment boundaries, u = 1 where the last "
-             "segment has positive area; trailing zero-area segment with u = 1 separately.  BWGenerator: 6 fixed + 10 / 100 seeded (m0, gamma0, m_min, m_max) incl. the "
+             "zero-area segments inside and at the start), 410 values of u in [0,1) incl. 0, 1e-15, 1-1e-15 and the exact segment boundaries (+- 1 ulp) of positive-height nodes; u at the "
+             "cumulative values of zero-height nodes (incl. u = 0 / u = 1 at zero-height end nodes) separately.  BWGenerator: 6 fixed + 10 / 100 seeded (m0, gamma0, m_min, m_max) incl. the "
              "peak outside the window and gamma0/(m_max - m_min) from 1e-3 to 1e2.  Slopes with 0 < |k| <= 1e-10 (snapped to 0 by the code) are not exercised")
 def c20_inverse_1d(ctx):
     LI = ctx.mod("generator.linear_interpolation").LinearInterp
@@ -758,11 +758,12 @@ def c20_inverse_1d(ctx):
         "LinearInterp/call_is_chord": "LinearInterp(x, y)(t) is the piecewise-linear interpolant through the nodes (np.interp), 1e-12",
         "LinearInterp/integral_is_antiderivative": "integral(x0) = 0, integral is continuous at the nodes, equals the trapezoid sums there (int_all at xN) and its central "
                                                    "difference quotient equals __call__ inside every segment (1e-6 relative to max y)",
-        "LinearInterp/inverse": "integral(solve(u)) == u * int_all to 1e-8*max(int_all,1) for u in [0,1) (and u = 1 when the last segment has positive area)",
+        "LinearInterp/inverse": "integral(solve(u)) == u * int_all to 1e-8*max(int_all,1) for u in [0,1] away (1e-9) from the cumulative values of zero-height END nodes; interior zero-height nodes: not within 1 ulp",
         "LinearInterp/range": "x0 <= solve(u) <= xN and solve(u) is finite, solve is non-decreasing in u",
         "LinearInterp/generate": "generate(N) returns N finite points in [x0, xN]",
-        "LinearInterp/solve_u1_trailing_zero_segment": "u = 1 on a grid whose LAST segment has zero area (two trailing zero-height nodes): solve(1) is finite, in range and "
-                                                       "integral(solve(1)) == int_all  [generate() draws u from [0,1), so this end point is reachable through solve() only]",
+        "LinearInterp/solve_at_zero_height_nodes": "u equal (or within 1 ulp / 1e-15) to the cumulative value of a ZERO-HEIGHT node, in particular u = 0 with y_0 = 0 and u = 1 with "
+                                                   "y_N = 0: solve(u) is finite, in range, and integral(solve(u)) == u*int_all (np.random.random() can return 0.0; 1.0 is reachable "
+                                                   "through solve() only)",
         "BWGenerator/integral_is_antiderivative": "d/dm integral(m) == __call__(m) == 1/((m-m0)^2 + gamma0^2/4) (central difference, 1e-5 + conditioning), integral(m) - integral(m_min) "
                                                   "== (2/gamma0)(atan(2(m-m0)/gamma0) - atan(2(m_min-m0)/gamma0)) and int_all == integral(m_max) - integral(m_min)",
         "BWGenerator/inverse": "integral(solve(u)) - integral(m_min) == u * int_all to 1e-9 relative, u in [0,1]",
@@ -800,11 +801,14 @@ def c20_inverse_1d(ctx):
         acc.add("LinearInterp/integral_is_antiderivative", ok and ok2 and bool(np.all(np.isfinite(full))),
                 dict(w, integral_at_nodes=_fl(node_vals), trapezoid_sums=_fl(cum), int_all=float(f.int_all), max_derivative_error=float(np.max(np.abs(dq - np.interp(mid, x, y))))))
         # inverse
-        last_area = 0.5 * (y[-1] + y[-2]) * (x[-1] - x[-2])
         u = _u_values(rs)
-        u = np.concatenate([u, cum[1:-1] / area, np.nextafter(cum[1:-1] / area, 0), np.nextafter(cum[1:-1] / area, 1)])
-        u = u[(u >= 0) & (u < 1)]
-        if last_area > 0:
+        ub = cum[1:-1] / area
+        # CDF values of zero-height nodes (and their immediate neighbourhood) are the subject of LinearInterp/solve_at_zero_height_nodes: there the radicand of solve is
+        # an exact zero computed with rounding.  Everything else is checked here.
+        pos = y[1:-1] > 0
+        u = np.concatenate([u, ub[pos], np.nextafter(ub[pos], 0), np.nextafter(ub[pos], 1)])
+        u = u[(u >= (0.0 if y[0] > 0 else 1e-9)) & (u <= (1.0 if y[-1] > 0 else 1 - 1e-9))]
+        if y[-1] > 0:
             u = np.concatenate([u, [1.0]])
         u = np.sort(u)
         with np.errstate(all="ignore"):
@@ -829,15 +833,26 @@ def c20_inverse_1d(ctx):
             g = f.generate(1000)
         acc.add("LinearInterp/generate", g.shape == (1000,) and bool(np.all(np.isfinite(g)) and g.min() >= x[0] - slack and g.max() <= x[-1] + slack),
                 dict(w, numpy_seed=ctx.seed + 5, shape=list(g.shape), min=float(np.nanmin(g)), max=float(np.nanmax(g)), n_nan=int(np.sum(~np.isfinite(g)))))
-    for gname, xs, ys in (("trailing_zero", [0.0, 1.0, 2.0, 3.0, 4.0], [1.0, 1.0, 2.0, 0.0, 0.0]), ("bump_then_zero", [0.0, 1.0, 2.0, 3.0, 4.0], [0.0, 0.0, 2.0, 0.0, 0.0])):
+    zero_nodes = [("trailing_zero_area_segment", [0.0, 1.0, 2.0, 3.0, 4.0], [1.0, 1.0, 2.0, 0.0, 0.0]), ("bump_then_zero", [0.0, 1.0, 2.0, 3.0, 4.0], [0.0, 0.0, 2.0, 0.0, 0.0]),
+                  ("descending_to_zero", [-3.0954492922107786, -2.8714608578278886, -1.1727669283378725, 0.15164937610791807, 1.7493773112198427], [2.0, 2.0, 4.5, 2.5, 0.0]),
+                  ("ascending_from_zero", [-7.811591962808506, -6.586606539871521, -5.623268889974002, -4.516139310806823], [0.0, 0.5, 0.5, 3.0]),
+                  ("descending_to_zero_simple", [0.0, 1.0, 2.0], [1.0, 2.0, 0.0])]
+    zero_nodes += [(g, xs, ys) for g, xs, ys in _li_grids(ctx) if 0.0 in ys]
+    for gname, xs, ys in zero_nodes:
         x, y = np.array(xs), np.array(ys)
         f = LI(x.copy(), y.copy())
-        ctx.count(key=gname, sample={"grid": gname, "x": xs, "y": ys, "u": 1.0})
+        cum = np.concatenate([[0.0], np.cumsum(0.5 * (y[1:] + y[:-1]) * np.diff(x))])
+        uz = cum[y == 0] / cum[-1]
+        u = np.concatenate([uz, np.nextafter(uz, 0), np.nextafter(uz, 1), uz - 1e-15, uz + 1e-15])
+        u = np.unique(u[(u >= 0) & (u <= 1)])
+        ctx.count(key=("zero_nodes", gname), sample={"grid": gname, "x": xs, "y": ys, "u": u.tolist()[:6]})
         with np.errstate(all="ignore"):
-            sol = f.solve(np.array([1.0]))
+            sol = f.solve(u)
             back = f.integral(np.nan_to_num(sol, nan=x[0]))
-        ok = bool(np.isfinite(sol[0]) and x[0] <= sol[0] <= x[-1] and abs(back[0] - f.int_all) <= LI_TOL)
-        acc.add("LinearInterp/solve_u1_trailing_zero_segment", ok, {"grid": gname, "x": xs, "y": ys, "u": 1.0, "solve_u": float(sol[0]), "int_all": float(f.int_all)})
+        bad = ~np.isfinite(sol) | (sol < x[0] - 1e-9 * (x[-1] - x[0])) | (sol > x[-1] + 1e-9 * (x[-1] - x[0])) | ~(np.abs(back - u * cum[-1]) <= LI_TOL * max(cum[-1], 1.0))
+        i = int(np.argmax(bad)) if bad.any() else 0
+        acc.add("LinearInterp/solve_at_zero_height_nodes", not bad.any(), {"grid": gname, "x": xs, "y": ys, "u": float(u[i]), "solve_u": float(sol[i]), "int_all": float(f.int_all),
+                                                                           "n_bad_u": int(bad.sum()), "bad_u": u[bad].tolist()[:6]})
     # Breit-Wigner
     bws = [(1.0, 0.1, 0.5, 1.5), (1.0, 0.1, 1.2, 3.0), (1.0, 0.1, 0.0, 0.8), (0.77, 0.15, 0.28, 1.8), (3.0, 1e-3, 2.0, 4.0), (1.0, 50.0, 0.5, 1.0)]
     for _ in range(10 if ctx.tier == "quick" else 100):
@@ -1367,6 +1382,8 @@ def c20_accept_reject(ctx):
                             "with positive weight",
         "zero_weight_never_kept": "a proposal of weight 0 is never kept",
         "ARGenerator": "ARGenerator(phsp, amp).generate(N) returns exactly N events",
+        "thinning_when_bound_grows": "when the running bound grows from B1 to B2 the events kept so far survive with probability B1/B2 (they were accepted against the smaller "
+                                     "bound): designed weights 1 / 50, fewer than 90 of <= 1100 earlier events survive (false-alarm probability <= 6e-13)",
     }
     for k, c in cl.items():
         acc.declare(k, c)
@@ -1425,6 +1442,35 @@ def c20_accept_reject(ctx):
                                                         proposals=syn.next_id))
         if shape == "zero_half":
             acc.add("zero_weight_never_kept", bool(np.all(x >= 0.5)), dict(w, kept_with_zero_weight=int(np.sum(x < 0.5))))
+    # thinning when the running bound grows: a designed weight sequence (weight 1 for every proposal except id 1150, weight 50).  The first batch (max_N = 1100
+    # proposals, ids 0..1099) is accepted against B1 = 1.1*1.01; the second batch contains the heavy proposal, the bound grows to B2 = 50.5 and every event kept so far
+    # must survive with probability B1/B2 = 0.022 only: of <= 1100 earlier events (mean <= 24.2) fewer than 90 survive except with probability
+    # <= (e*24.2/90)^90 = 6e-13 (Chernoff bound for a binomial upper tail).
+    class _Designed(_Synthetic):
+        def w_np(self, x):
+            return np.ones_like(x)
+
+        def amp(self, data):
+            ids = np.asarray(data["id"])
+            w = np.where(ids == 1150, 50.0, 1.0)
+            self.calls.append((len(w), float(np.max(w))))
+            return self.tf.constant(w)
+
+    for seed in range(3):
+        syn = _Designed(tf, "designed")
+        tf.random.set_seed(1000 * ctx.seed + 30 + seed)
+        ctx.count(key=("thinning", seed))
+        with _quiet():
+            out, err = _try(lambda: G.multi_sampling(syn.phsp, syn.amp, 1200, max_N=1100, display=False))
+        if err:
+            acc.add("thinning_when_bound_grows", False, {"raised": err})
+            continue
+        ret, (gt, bound) = out
+        ids = np.asarray(ret["id"])
+        early = int(np.sum(ids < 1100))
+        acc.add("thinning_when_bound_grows", len(ids) == 1200 and early < 90 and float(bound) >= 50.0,
+                {"weights": "1 for every proposal except id 1150 (weight 50)", "N": 1200, "max_N": 1100, "tf_seed": 1000 * ctx.seed + 30 + seed, "returned": len(ids),
+                 "kept_from_first_batch": early, "allowed": 89, "final_bound": float(bound), "batches": syn.calls[:4]})
     # single_sampling2 directly
     for shape in ("peak", "ramp", "zero_half"):
         for n_prop in (1, 5, 1000):
